@@ -14,6 +14,17 @@ logging.disable(logging.CRITICAL)
 
 import omega.symbolic.temporal as trl  # noqa: E402
 
+import contextlib
+import io
+
+
+@contextlib.contextmanager
+def quiet():
+    """Swallow what the library prints (realizability messages, warnings)."""
+    with contextlib.redirect_stdout(io.StringIO()):
+        yield
+
+
 KINDS = ['bool', (0, 1), (0, 2), (-1, 1), (-2, -1), (0, 3), (-2, 1), (1, 1)]
 
 
